@@ -19,7 +19,7 @@ CHECK_TEXT = {
         "design_ref": "DESIGN.md 6 C07",
     },
     "C16": {
-        "technique": "runtime round-trip oracle: announced TXT captured at a fake provider -> library parser -> second manager's entry; independent strict QR parser",
+        "technique": "runtime round-trip oracle: announced TXT captured at a fake provider -> library parser -> second manager's entry; independent strict QR parser; histories of auto-accept changes / unannounce / announce / failing announce with a check after every announcement",
         "level_text": "Held on every generated configuration of the run (50k quick / 2M thorough); exploration with a generator aimed at the 32-byte boundary, '=', ';', ':' and multi-byte runes.",
         "level_note": "MdnsManager.Start's provider selection is replaced by the VerifAttach hook; configurations with invalid UTF-8 are only checked for truncation and crashes (outside the quantifier).",
         "design_ref": "DESIGN.md 6 C16",
@@ -33,13 +33,13 @@ CHECK_TEXT = {
     "C03": {
         "technique": "runtime monitor: two real endpoints, seeded interleavings in virtual time, outcome-table oracle (timely) and agreement-at-quiescence oracle (arbitrary)",
         "level_text": "Every explored configuration x interleaving ended as the outcome table dictates (timely) and never in a lasting disagreement (arbitrary); bounded runs (12 virtual minutes).",
-        "level_note": "'eventually' is decided at bounded quiescence; FIFO lossless transport model; outcome table written from the documented handshake behaviour.",
+        "level_note": "'eventually' is decided at bounded quiescence; FIFO lossless transport model; outcome table written from the documented handshake behaviour. User actions running in parallel with a delivery are exercised but fall under the recorded finding timely:user-action-in-parallel-with-a-delivery (no serialisation in the library): inside that window the check cannot tell a new defect from the recorded one.",
         "design_ref": "DESIGN.md 6 C03, appendix D",
     },
     "C04": {
-        "technique": "runtime monitor: reported state sequence checked online against a specification graph; finality checked at quiescent snapshots; single write-fault sweep",
+        "technique": "runtime monitor: reported state sequence checked online against a specification graph; finality checked at quiescent snapshots; single write-fault sweep; frames handed over after a local close; operations at timer boundaries (sequential, and in parallel with the timeout handling)",
         "level_text": "All reported transitions on all explored histories are edges of the role's graph and every terminal outcome stayed final; includes a fault at every single write index of cooperative runs.",
-        "level_note": "Specification graph is hand-written (appendix A); histories <= 24 events.",
+        "level_note": "Specification graph is hand-written (appendix A); histories <= 24 events. Histories in which an operation runs in parallel with a timeout handling fall under the recorded finding timeout-handled-in-parallel-with-another-event: inside that window the check cannot tell a new defect from the recorded one.",
         "design_ref": "DESIGN.md 6 C04, appendix A",
     },
     "C06": {
@@ -49,7 +49,7 @@ CHECK_TEXT = {
         "design_ref": "DESIGN.md 6 C06",
     },
     "C08": {
-        "technique": "runtime crash/wedge oracle: recovered panics, child-process death attribution, watchdog goroutine-dump wedge detection, under -race (checkptr)",
+        "technique": "runtime crash/wedge oracle: recovered panics, child-process death attribution, watchdog goroutine-dump wedge detection, under -race (checkptr); receive loop in parallel with firing timers and application goroutines (storm, focus perturbation)",
         "level_text": "No panic and no wedge on any delivered input (35k quick / 1M thorough inputs across all reachable handshake states, both roles).",
         "level_note": "Structured mutations + random bytes; no claim beyond generated classes; websocket frames and mDNS TXT inputs are covered by wsconn/mdnssim once built.",
         "design_ref": "DESIGN.md 6 C08",
@@ -97,7 +97,7 @@ CHECK_TEXT = {
         "design_ref": "DESIGN.md 6 C02",
     },
     "C05": {
-        "technique": "runtime bounded-progress monitor over real hub pairs: registry views, proxy connection counts, pairing details and payload echo after seeded disturbance sequences",
+        "technique": "runtime bounded-progress monitor over real hub pairs: registry views, proxy connection counts, pairing details and payload echo after seeded disturbance sequences (incl. a one-sided registration phase, silent-network stalls, cuts triggered by the second TCP connection, close/reconnect churn); perturbed build with focus and pause sites",
         "level_text": "All explored scenarios converged to exactly one working connection within the watchdog after the last disturbance (48 quick / 1500 thorough pairs).",
         "level_note": "Liveness restated as bounded progress; in-process peer restart; schedules are whatever loopback timing produces (perturbation where available).",
         "design_ref": "DESIGN.md 6 C05",
@@ -115,7 +115,7 @@ CHECK_TEXT = {
         "design_ref": "DESIGN.md 6 C11",
     },
     "C15": {
-        "technique": "metamorphic runtime check: canonical vs re-spelled SKI arguments on twin hub pairs, per-step effect comparison in equal hub states",
+        "technique": "metamorphic runtime check: canonical vs re-spelled SKI arguments on twin hub pairs, per-step effect comparison in equal hub states; the (hub state x first operation) grid is walked systematically",
         "level_text": "Every compared step had identical effects for canonical and re-spelled SKIs (operations x hub states x 4 spellings).",
         "level_note": "Steps whose twin runs were not in the same stable state are not compared (counted).",
         "design_ref": "DESIGN.md 6 C15",
